@@ -114,7 +114,11 @@ Record builder_case := {
   bc_packets : list packet;
   bc_indices : list N;                    (* compiledRules[i].lpmIndex *)
   bc_tries : list (list prefix);          (* simulatedLpmTries *)
-  bc_matches : list (option N)            (* RoutingMatcher.Match: index of the rule that hit *)
+  bc_matches : list (option N);           (* RoutingMatcher.Match: index of the rule that hit *)
+  bc_order : list bstep;                  (* KernspaceSnapshot / replayed snapshot.BuildKernspace / BuildUserspace, as run *)
+  bc_set_probes : list N;
+  bc_installs : list (list (list (N * N)));  (* per BuildKernspace replay, per stored set: keys (prefixlen, packed words) *)
+  bc_trie_has : list (list bool)          (* per stored set, per probe: lpmMatcher[set].HasPrefix *)
 }.
 
 Definition case_hash (c : builder_case) : list prefix -> N :=
@@ -130,13 +134,44 @@ Fixpoint share_ok (rs : list (N * list prefix)) : bool :=
            impl<>spec : 22 match, 26 two rules share an index though their sets differ,
                         27 kernel decision over the impl's stored sets
            model<>spec: 24 match, 25 kernel decision *)
+Definition key_eqb (k : N * N) (m : lpm_key) : bool :=
+  (fst k =? lk_prefixlen m) && list_eqb N.eqb (unpack4 (snd k)) (lk_data m).
+Fixpoint list_eqb2 {A B} (eqb : A -> B -> bool) (a : list A) (b : list B) : bool :=
+  match a, b with
+  | [], [] => true
+  | x :: a', y :: b' => eqb x y && list_eqb2 eqb a' b'
+  | _, _ => false
+  end.
+
+(* codes.  impl<>model: 20 indices, 21 stored sets, 23 match, 33 key lists handed to the kernel, 34 per-set trie
+           impl<>spec : 22 match, 26 two rules share an index though their sets differ,
+                        27 kernel decision over the builder's stored sets,
+                        28 per order: kernel keys written from the snapshot <> userspace trie, on some probe of some rule's set
+                        29 per order: kernel keys written from the snapshot <> the set the rule was given
+           model<>spec: 24 match, 25 kernel decision, 35 model key lists <> the set
+   index of 28/29/35: 100 * (number of the BuildKernspace call) + rule number *)
 Definition check_builder_case (c : builder_case) : list (N * N) :=
+  let big := bc_big c in
   let b := run (case_hash c) (bc_ops c) in
   let rs := b_rules b in
   let specs := map spec_rule_of rs in
   let irules := map (fun ri => {| r_role := r_role (fst ri); r_not := r_not (fst ri); r_index := snd ri;
                                   r_values := r_values (fst ri) |}) (combine rs (bc_indices c)) in
   let opt_eq (x : option (option N)) (y : option N) := match x with Some v => optN_eqb v y | None => false end in
+  let probes := bc_set_probes c in
+  let pnodes := map (fun a => lpm_node_of_key big (probe_key big a)) probes in
+  let minst := match order_run false big (mem_init (b_tries b)) (bc_order c) with
+               | Some m => Some (m_installs m) | None => None end in
+  (* one list of answers per probe, from a key list *)
+  let answers (nodes : list lpm_node) := map (fun pn => is_some (lpm_lookup nodes pn)) pnodes in
+  let per_rule (k : N) (sets : list (list lpm_node)) (code : N) (want : rule -> list bool) :=
+      zip_check (fun i (r : rule) (_ : rule) =>
+                   err (100 * k + i) code
+                       (match nth_error sets (N.to_nat (r_index r)) with
+                        | Some nodes => list_eqb Bool.eqb (answers nodes) (want r)
+                        | None => false
+                        end)) irules irules 0 in
+  let spec_answers (r : rule) := map (set_contains (r_values r)) probes in
   err 0 20 (list_eqb N.eqb (bc_indices c) (map r_index rs))
   ++ err 0 21 (list_eqb (list_eqb prefix_eqb) (bc_tries c) (b_tries b))
   ++ err 0 26 (share_ok (combine (bc_indices c) (map r_values rs)))
@@ -146,9 +181,26 @@ Definition check_builder_case (c : builder_case) : list (N * N) :=
                   err i 22 (optN_eqb m s)
                   ++ err i 23 (opt_eq mm m)
                   ++ err i 24 (opt_eq mm s)
-                  ++ err i 25 (opt_eq (match_rules_kernel (bc_big c) (b_tries b) rs k) s)
-                  ++ err i 27 (opt_eq (match_rules_kernel (bc_big c) (bc_tries c) irules k) s))
-               (bc_packets c) (bc_matches c) 0.
+                  ++ err i 25 (opt_eq (match_rules_kernel big (b_tries b) rs k) s)
+                  ++ err i 27 (opt_eq (match_rules_kernel big (bc_tries c) irules k) s))
+               (bc_packets c) (bc_matches c) 0
+  ++ err 0 33 (match minst with
+               | Some mi => list_eqb2 (list_eqb2 (list_eqb2 key_eqb)) (bc_installs c) mi
+               | None => false
+               end)
+  ++ err 0 34 (list_eqb2 (fun (row : list bool) (s : list prefix) =>
+                            list_eqb Bool.eqb row (map (trie_match s) probes)) (bc_trie_has c) (b_tries b))
+  ++ zip_check (fun k (inst : list (list (N * N))) (_ : unit) =>
+                  let sets := map (map (fun kk => lpm_node_of_key big {| lk_prefixlen := fst kk; lk_data := unpack4 (snd kk) |})) inst in
+                  per_rule k sets 28 (fun r => nth (N.to_nat (r_index r)) (bc_trie_has c) [])
+                  ++ per_rule k sets 29 spec_answers)
+               (bc_installs c) (map (fun _ => tt) (bc_installs c)) 0
+  ++ match minst with
+     | Some mi => zip_check (fun k (inst : list (list lpm_key)) (_ : unit) =>
+                               per_rule k (map (map (lpm_node_of_key big)) inst) 35 spec_answers)
+                            mi (map (fun _ => tt) mi) 0
+     | None => []
+     end.
 
 (* signature: (#rules, #rules sharing an earlier rule's index, #stored sets, #distinct outcomes) *)
 Definition builder_signature (c : builder_case) : N * N * N * N :=
